@@ -171,7 +171,7 @@ def _buildable(spec):
 
 def generate(rng, tier):
     _TIER[0] = tier
-    n_base = 36 if tier == "quick" else 160
+    n_base = 36 if tier == "quick" else 280
     per_base = 6 if tier == "quick" else 8
     cases = []
     for i in range(n_base):
@@ -279,12 +279,12 @@ def run_impl(case):
         return {"safe_in": bool(_is_safe_input_type_change(o, n)),
                 "safe_out": bool(_is_safe_output_type_change(o, n))}
     obs, old_s, new_s = _diff_obs(case)
-    if "changes" in obs:
+    if "changes" in obs and not any(c[1] == 2 for c in obs["changes"]):
         # implementation-side clause: operations valid against old stay valid when nothing BREAKING
         import random
         rng = random.Random(len(json.dumps(case["old"], sort_keys=True)))
         ops = []
-        for text in G.gen_operations(rng, old_s, 4):
+        for text in G.gen_operations(rng, old_s, 3 if _TIER[0] == "quick" else 5):
             try:
                 doc = parse(text)
                 if validate_ast(old_s, doc).errors:
@@ -434,7 +434,7 @@ def extra_evidence(cases, obss):
                              "operations_valid_against_old": n_ops,
                              "operations_revalidated_without_breaking_change": n_ops_checked,
                              "hash_seed_runs": sum(len(o.get("seed_runs", [])) for o in obss)},
-            "exhaustive": "safe_in/safe_out on all pairs of wrappings of depth <= 3 over two names"}
+            "exhaustive_part": "safe_in/safe_out on all pairs of wrappings of depth <= 3 over two names"}
 
 
 if __name__ == "__main__":
